@@ -127,6 +127,8 @@ def run_unit(unit, rlimit=None, seed=None, threads=4, timeout=900, spinoff=False
         if name.startswith(crate + "::"):
             name = name[len(crate) + 2:]
         funcs[name] = {"name": name, "success": bool(f.get("success")), "time_us": f.get("time-micros", 0), "rlimit": f.get("rlimit", 0), "mode": f.get("mode:")}
+    if "panicked at rust_verify" in p.stderr or "internal error: generated ill-typed AIR" in p.stderr:
+        res["reason"] = "verus internal error (panic): " + " ".join(p.stderr[p.stderr.find("panicked at"):][:300].split())
     errors = parse_errors(p.stderr, os.path.basename(gen_path))
     for e in errors:
         e["fn"] = fn_at(spans, e["line"]) if e["line"] else None
